@@ -253,7 +253,16 @@ func (d *zzDecompressor) Reset(r io.Reader) error {
 		return err
 	}
 	if len(raw) == 0 {
-		// The library parks pooled decompressors on an empty reader.
+		// The library parks pooled decompressors on an empty reader before it
+		// returns them to the pool. In pair mode the parking call dawdles: if the
+		// object were already back in the pool, another call could take it in the
+		// meantime, and the parking would then hit an object that call owns.
+		if atomic.LoadInt32(&d.stats.Pair) != 0 {
+			time.Sleep(3 * time.Millisecond)
+		}
+		if atomic.LoadInt32(&d.busy) != 0 {
+			d.stats.violate("%s decompressor was reset by its previous owner after it had been handed to the next call (it went back to the pool too early)", d.name)
+		}
 		d.out = bytes.NewReader(nil)
 		d.err = io.ErrUnexpectedEOF
 		return d.err
